@@ -340,7 +340,7 @@ where
         failure_persistence: None,
         rng_algorithm: RngAlgorithm::ChaCha,
         rng_seed: RngSeed::Fixed(seed_bytes(ctx.seed, sub.name, shard as u64)),
-        max_shrink_iters: 20000,
+        max_shrink_iters: 6000,
         max_global_rejects: 1_000_000,
         verbose: 0,
         ..Config::default()
